@@ -787,8 +787,18 @@ impl<'s> Visit<'s> for Rw<'s> {
                         Some(to) => to.rsplit("::").next().unwrap().to_string(),
                         None => segs.last().cloned().unwrap_or_default(),
                     };
-                    self.calls.insert(format!("p:{}", name));
-                    if self.threaded.contains(&name) || self.threaded.contains(&format!("fn:{}", name)) {
+                    // `Type::name(..)`: an associated function is identified with its type
+                    let qual = if segs.len() >= 2 && segs[segs.len() - 2].chars().next().map(|c| c.is_uppercase()).unwrap_or(false) && self.lookup(&segs).is_none() {
+                        Some(format!("{}::{}", segs[segs.len() - 2], name))
+                    } else {
+                        None
+                    };
+                    self.calls.insert(match &qual { Some(q) => format!("p:{}", q), None => format!("p:{}", name) });
+                    let hit = match &qual {
+                        Some(q) => self.threaded.contains(&format!("fn:{}", q)) || (q.starts_with("Self::") && self.threaded.iter().any(|t| t.starts_with("fn:") && t.ends_with(&format!("::{}", name)))),
+                        None => self.threaded.contains(&name) || self.threaded.contains(&format!("fn:{}", name)),
+                    };
+                    if hit {
                         if let Some(g) = self.ghost_arg() {
                             let (pa, _) = br(c.paren_token.span.close());
                             let t = if c.args.is_empty() { g } else if c.args.trailing_punct() { format!(" {}", g) } else { format!(", {}", g) };
@@ -976,13 +986,30 @@ fn compute_threaded(unit: &Unit, srcs: &HashMap<String, SrcFile>) -> R<BTreeSet<
         let is_method = _sig.map(|sg| matches!(sg.inputs.first(), Some(syn::FnArg::Receiver(_)))).unwrap_or(false);
         calls.push((f.out_name(), is_method, cs));
     }
+    // associated functions (no receiver, declared in `impl Type`) are keyed `fn:Type::name`
+    let mut assoc: HashMap<String, String> = HashMap::new();
+    for f in unit.fns() {
+        if f.path.contains('#') || f.rename.is_some() {
+            continue;
+        }
+        let segs: Vec<&str> = f.path.split("::").collect();
+        if segs.len() == 2 && segs[0].chars().next().map(|c| c.is_uppercase()).unwrap_or(false) {
+            assoc.insert(segs[1].to_string(), segs[0].to_string());
+        }
+    }
     // a method call `.f()` reaches a threaded *method* (or seed) named f; a path call `f()` / `T::f()`
     // reaches a threaded free function, associated function or method named f
     let hits = |threaded: &BTreeSet<String>, c: &String| -> bool {
         if let Some(n) = c.strip_prefix("m:") {
             threaded.contains(n)
         } else if let Some(n) = c.strip_prefix("p:") {
-            threaded.contains(n) || threaded.contains(&format!("fn:{}", n))
+            if let Some(m) = n.strip_prefix("Self::") {
+                threaded.iter().any(|t| t.starts_with("fn:") && t.ends_with(&format!("::{}", m)))
+            } else if n.contains("::") {
+                threaded.contains(&format!("fn:{}", n))
+            } else {
+                threaded.contains(n) || threaded.contains(&format!("fn:{}", n))
+            }
         } else {
             false
         }
@@ -991,6 +1018,10 @@ fn compute_threaded(unit: &Unit, srcs: &HashMap<String, SrcFile>) -> R<BTreeSet<
         let mut changed = false;
         for (name, is_method, cs) in &calls {
             let key = if *is_method { name.clone() } else { format!("fn:{}", name) };
+            let key = match assoc.get(name) {
+                Some(ty) if !*is_method => format!("fn:{}::{}", ty, name),
+                _ => key,
+            };
             if !threaded.contains(&key) && cs.iter().any(|c| hits(&threaded, c)) && !g.never.contains(name) {
                 threaded.insert(key);
                 changed = true;
@@ -1141,7 +1172,11 @@ fn emit_fn_inner(unit: &Unit, src: &SrcFile, f: &FnSpec, threaded: &BTreeSet<Str
     };
 
     let name = f.out_name();
-    let is_threaded = threaded.contains(&name) || threaded.contains(&format!("fn:{}", name));
+    let assoc_key = {
+        let segs: Vec<&str> = fpath.split("::").collect();
+        if ck.is_none() && f.rename.is_none() && segs.len() == 2 { format!("fn:{}::{}", segs[0], segs[1]) } else { String::new() }
+    };
+    let is_threaded = threaded.contains(&name) || threaded.contains(&format!("fn:{}", name)) || (!assoc_key.is_empty() && threaded.contains(&assoc_key));
     let ghost_param = unit.ghost.as_ref().map(|g| format!("Tracked({}): Tracked<&mut {}>", g.param, g.ty));
 
     let (lo, hi, header, body_lo);
